@@ -9,7 +9,7 @@ mod verif_c09_vrate {
     use super::*;
     use crate::verif_spec::h::*;
 
-    //@ob id=C09.vertical_rate props=C09,C01 tier=quick kind=contract fns=adsb/vertical_rate.rs:vertical_rate,adsb/vertical_rate.rs:vertical_rate_value draw=frame28
+    //@ob id=C09.vertical_rate props=C09,C01 tier=quick kind=contract fns=adsb/vertical_rate.rs:vertical_rate,adsb/vertical_rate.rs:vertical_rate_value draw=frame28 replay=vrate
     //@region all long frames (all 2x512 sign/field codes x every other bit): field 0 -> no value, else +/-64*(field-1); no overflow
     #[kani::proof]
     #[kani::unwind(34)]
